@@ -296,6 +296,36 @@ TCli ==
           ELSE IF hits = {} THEN Broken("an accepted line played a different move", Ev.s)
           ELSE st' = after(CHOOSE m \in hits : TRUE) /\ keyS' = keyS /\ mode' = "ok" /\ Advance
 
+\* one turn of the engine-versus-engine game loop (`chess watch`): the program prints the board, the
+\* notation of the move just made, the side that made it and the half-move clock.  The move must be a
+\* legal move of the position before it whose notation is the printed one, the printed board its
+\* successor, the printed clock the model's clock; the loop then hands the turn over.
+TWatch ==
+  /\ Ev.ev = "Watch" /\ mode = "ok"
+  /\ \E p \in {Abs(st)} : \E L \in {Legal(p)} : \E M \in {LabelMatch(p, L, Ev.last)} :
+       LET hits == { m \in M : GamePlay(st, m).b = Ev.b }
+       IN IF Ev.mover # st.turn THEN Reject(st, "the game loop did not alternate the side to move", [printed |-> Ev.mover, expected |-> st.turn], "none")
+          ELSE IF M = {} THEN Broken("the engine played something that is not the printed legal move", [last |-> Ev.last])
+          ELSE IF hits = {} THEN Broken("the board after the engine's move is not the successor of the printed move", [last |-> Ev.last])
+          ELSE \E s \in {GamePlay(st, CHOOSE m \in hits : TRUE)} :
+               IF Ev.hm # Last(s.hmS)
+               THEN Reject(GameToggle(s), "printed half-move clock differs", <<Ev.hm, Last(s.hmS)>>, "none")
+               ELSE st' = GameToggle(s) /\ keyS' = keyS /\ mode' = "ok" /\ Advance
+
+\* the game loop's own verdict when it stops
+TWatchEnd ==
+  /\ Ev.ev = "WatchEnd" /\ mode = "ok"
+  /\ \E p \in {Abs(st)} : \E L \in {Legal(p)} :
+       LET v == Verdict(p, L)
+           fifty == Last(st.hmS) >= DrawThreshold
+           rep == Occurred(st) >= 3
+           same == st' = st /\ keyS' = keyS /\ mode' = "ok" /\ Advance
+       IN IF Ev.res = "checkmate" /\ v # "checkmate" THEN Reject(st, "the game loop announced a checkmate that is none", v, "none")
+          ELSE IF Ev.res = "stalemate" /\ v # "stalemate" THEN Reject(st, "the game loop announced a stalemate that is none", v, "none")
+          ELSE IF Ev.res = "draw" /\ ~(fifty \/ rep) THEN Reject(st, "the game loop announced a draw too early", [hm |-> Last(st.hmS), occurred |-> Occurred(st)], "none")
+          ELSE IF Ev.res = "error" /\ L # {} THEN Reject(st, "the game loop stopped with an error although a legal move exists", Ev.msg, "none")
+          ELSE same
+
 TGEnding ==
   /\ Ev.ev = "GEnding" /\ mode = "ok"
   /\ \E p \in {Abs(st)} : \E L \in {Legal(p)} :
@@ -312,7 +342,7 @@ TGEnding ==
 
 Init == l = 2 /\ st = EmptyEngine /\ keyS = << >> /\ mode = "skip"
 Next == l <= NRec /\ (TReset \/ TSkipped \/ TApply \/ TUndo \/ TToggle \/ TCount \/ TUncount \/ TQuery \/ TEnding
-                       \/ TGReset \/ TGToggle \/ TCoordBatch \/ TCoord \/ TLabelBatch \/ TLabel \/ TEngineMove \/ TGEnding \/ TBookEdges \/ TSearch \/ TCli \/ TCliReset)
+                       \/ TGReset \/ TGToggle \/ TCoordBatch \/ TCoord \/ TLabelBatch \/ TLabel \/ TEngineMove \/ TGEnding \/ TBookEdges \/ TSearch \/ TCli \/ TCliReset \/ TWatch \/ TWatchEnd)
 Spec == Init /\ [][Next]_vars
 
 \* the model itself must stay sane (a failure here is a defect of the specification, not of the code)
